@@ -2,6 +2,7 @@ import XmppModel.Model.Negotiate
 import XmppModel.Lemmas.Negotiate
 import XmppModel.Lemmas.NegotiateReach
 import XmppModel.Lemmas.NegotiateTerm
+import XmppModel.Lemmas.Component
 import XmppModel.Generated.C04
 /-!
 # C04 — session establishment fails closed under faults
@@ -165,6 +166,67 @@ theorem C04_cancel_progress_needs_read_deadline :
 /-- **no panic**: the machine never reaches the `crash` point -/
 theorem C04_no_panic {c : Conf} (h : Reach C O st0 script picks c) : c.pc ≠ .crash :=
   (invS_reach h).crash
+
+/-! ### the component handshake as a front-end (`Model/Component.lean`)
+
+`component.Negotiator` inside `negotiateSession`, for every peer script, fault / blocking
+pattern and cancellation instant. -/
+
+section component
+open XmppModel.Component
+
+/-- **a component session is established only by a clean, acknowledged handshake**: success
+implies that no read or write failed, the context is not done, and the peer's input began with
+(an optional processing instruction and) a stream header carrying a stream id, followed by
+`<handshake/>` -/
+theorem C04_component_success {O : Component.Oracle} {script : List Item} {c : Component.Conf}
+    (h : Component.Reach O script c) (hd : c.pc = .done) :
+    (∀ e ∈ c.tr, e.faulty = false) ∧ O.cancel c.tr = false ∧
+    ∃ rest, script = [.hdr true, .ack] ++ rest ∨ script = [.pi, .hdr true, .ack] ++ rest := by
+  have hi := Component.inv_reach h
+  refine ⟨hi.clean (by rw [hd]; rfl), hi.notCancelled hd, ?_⟩
+  obtain ⟨l, hl, hs⟩ := hi.consumed
+  rw [hd] at hs
+  rcases hs with hs | hs
+  · exact ⟨c.script, Or.inl (by rw [hl, hs])⟩
+  · exact ⟨c.script, Or.inr (by rw [hl, hs])⟩
+
+/-- **fail closed**: once a read or write has failed the handshake has failed (no `Ready`), and
+the failed operation is the last event -/
+theorem C04_component_fail_closed {O : Component.Oracle} {script : List Item} {c : Component.Conf}
+    (h : Component.Reach O script c) {e : Component.Ev} (he : e ∈ c.tr) (hf : e.faulty = true) :
+    (∃ cls, c.pc = .fail cls) ∧ ∃ rest, c.tr = e :: rest := by
+  have hi := Component.inv_reach h
+  have hfail : c.pc.failed = true := by
+    cases hp : c.pc.failed
+    · have := hi.clean hp e he; rw [hf] at this; cases this
+    · rfl
+  constructor
+  · cases hpc : c.pc <;> simp_all [Component.Pc.failed]
+  · rcases hi.shape with hc | ⟨e', rest, ht, _, hrest⟩
+    · have := hc e he; rw [hf] at this; cases this
+    · rw [ht] at he
+      simp only [List.mem_cons] at he
+      rcases he with rfl | he
+      · exact ⟨rest, ht⟩
+      · have := hrest e he; rw [hf] at this; cases this
+
+/-- **cancellation ends a blocked read and a blocked write** of the component handshake too -/
+theorem C04_component_cancel_progress {O : Component.Oracle} {script : List Item}
+    {c : Component.Conf} (h : Component.Reach O script c) (hr : O.dlRd = true) (hw : O.dlWr = true)
+    {wr : Bool} (hh : c.pc = .hung wr) : O.cancel c.tr = false := by
+  have := (Component.inv_reach h).hung wr hh
+  cases wr <;> simp_all
+
+/-- the handshake always ends: after `2·|script| + 6` steps the machine is in a final point -/
+theorem C04_component_returns (O : Component.Oracle) (script : List Item) :
+    (Component.run O (2 * script.length + 6) (Component.init script)).pc.final = true :=
+  Component.run_final O _ _ (by simp [Component.measure, Component.init, Component.rank])
+
+example : (Component.run ⟨fun _ => false, fun _ => false, fun _ => false, true, true⟩ 10
+    (Component.init [.pi, .hdr true, .ack])).pc = .done := by decide
+
+end component
 
 /-! ### non-vacuity -/
 
